@@ -40,11 +40,11 @@ impl Alpha {
         let b1 = dig(1);
         let x = dig(10);
         Self {
-            bh: vec![Z4, b1, dig(2), bump(b1, 3), shift(b1)],
+            bh: vec![Z4, b1, dig(2), bump(b1, 3), shift(b1), bump(b1, 0), bump(b1, 1), bump(b1, 2)],
             asset: vec![0, 1],
             fee: vec![0, 7],
-            nullifier: vec![dig(20), dig(21), bump(dig(20), 2), dig(22), shift(dig(20))],
-            exits: vec![Z4, x, dig(11), bump(x, 1), shift(x)],
+            nullifier: vec![dig(20), dig(21), bump(dig(20), 2), dig(22), shift(dig(20)), bump(dig(20), 0), bump(dig(20), 1), bump(dig(20), 3)],
+            exits: vec![Z4, x, dig(11), bump(x, 1), shift(x), bump(x, 0), bump(x, 2), bump(x, 3)],
             amounts: vec![0, 1, 5, 1 << 31, TWO32 - 1],
             pre: vec![dig(30), dig(31)],
             dnum: vec![0, 77],
